@@ -9,6 +9,7 @@ package zzverif
 import (
 	"encoding/json"
 	"fmt"
+	"math"
 	"math/big"
 	"os"
 	"strings"
@@ -362,3 +363,14 @@ func IteU64(c bool, a, b uint64) uint64 {
 
 // Concretize8 forks over every feasible value of x (natively the identity).
 func Concretize8(x uint8) uint8 { return x }
+
+// UFF64: uninterpreted function with a float64 result (symbolic executor only).
+func UFF64(name string, args ...interface{}) float64 { return 0 }
+
+// F64: a symbolic float64 input.
+func F64(name string) float64 {
+	return math.Float64frombits(get(name).Uint64())
+}
+
+// Keccak: keccak256 (under the executor: concrete on concrete bytes, injective UF otherwise).
+func Keccak(b []byte) [32]byte { panic("zzverif.Keccak is only available under the symbolic executor") }
